@@ -183,7 +183,8 @@ def run_scenario(sc):
         for p, v in (sc.get("committed") or {}).items():
             c.gc.group("g").offsets[("t", int(p))] = (v, "")
         lat = sc.get("latency", [0.001, 0.004])
-        c.latency = lambda node, api: lat[0] + (lat[1] - lat[0]) * rng.random()
+        api_lat = sc.get("api_latency") or {}      # e.g. {"OffsetFetch": 0.2}: one slow kind of request
+        c.latency = lambda node, api: api_lat[api] if api in api_lat else lat[0] + (lat[1] - lat[0]) * rng.random()
         faults = {int(k): v for k, v in (sc.get("faults") or {}).items()}
         counter = {"n": 0}
         apis = ("ListOffsets", "OffsetFetch", "FindCoordinator", "Fetch", "Metadata")
@@ -263,6 +264,22 @@ def run_scenario(sc):
                 net.log("t", m["partition"]).leader = m["to"]
                 net.ev("leader_change", partition=m["partition"], to=m["to"])
             loop.call_later(m["at"], mig)
+        for m in sc.get("leaderless") or []:
+            # the partition has no leader for a while: its start position is looked up later than the others'
+            def off(m=m):
+                lg = net.log("t", m["partition"])
+                old = lg.leader
+                lg.leader = -1
+                net.ev("leader_change", partition=m["partition"], to=-1)
+
+                def on():
+                    lg.leader = old
+                    net.ev("leader_change", partition=m["partition"], to=old)
+                loop.call_later(m["for"], on)
+            if m["at"] <= 0:
+                off()
+            else:
+                loop.call_later(m["at"], off)
         for m in sc.get("log_start_moves") or []:
             def mv(m=m):
                 lg = net.log("t", m["partition"])
